@@ -166,12 +166,14 @@ pub fn debug_fmt<T, N: ArrayLength, const R: usize>() {
     {
         let mut o = core::fmt::FormattingOptions::new();
         o.width(width).precision(prec);
+        if R != 0 { o.sign(Some(core::fmt::Sign::Plus)).sign_aware_zero_pad(true).debug_as_hex(Some(core::fmt::DebugAsHex::Lower)); }
         let mut fm = o.create_formatter(&mut s1);
         assert!(core::fmt::Debug::fmt(&a, &mut fm).is_ok());
     }
     {
         let mut o = core::fmt::FormattingOptions::new();
         o.width(width).precision(prec);
+        if R != 0 { o.sign(Some(core::fmt::Sign::Plus)).sign_aware_zero_pad(true).debug_as_hex(Some(core::fmt::DebugAsHex::Lower)); }
         let mut fm = o.create_formatter(&mut s2);
         assert!(core::fmt::Debug::fmt(a.as_slice(), &mut fm).is_ok());
     }
